@@ -248,9 +248,11 @@ func e1Scenarios(tier string) []*e1Scenario {
 		}
 	}
 	if tier == "thorough" {
-		oneStep([]int{1, 2, 3}, orders, 1, 2, 99)
-		oneStep([]int{1, 2, 3}, rot, 2, 1, 3)
-		twoStep([]int{1, 2}, rot[:2], 1, 2, 2)
+		oneStep([]int{1, 2, 3}, rot, 1, 2, 2)      // the quick space, plus MaxReplica 3
+		oneStep([]int{1, 2, 3}, orders, 1, 1, 2)   // every rank order of the pool
+		oneStep([]int{1, 2, 3}, rot[:2], 1, 2, 99) // ALL interleavings (no preemption bound)
+		oneStep([]int{1, 2, 3}, rot[:2], 2, 1, 3)  // two lookup threads
+		twoStep([]int{2}, rot[:1], 1, 2, 2)        // two Refreshes in a row
 	} else {
 		oneStep([]int{1, 2}, rot, 1, 2, 2)
 	}
@@ -428,7 +430,7 @@ func (sc *e1Scenario) body() (obs, vio string) {
 	}
 
 	detail := func() string {
-		b, _ := json.Marshal(map[string]interface{}{"scenario": sc.describe(), "lookups": ops})
+		b, _ := json.Marshal(map[string]interface{}{"lookups": ops})
 		return string(b)
 	}
 	kindsOf := func(lo, hi int32) string {
@@ -599,11 +601,13 @@ func e1RunJob(scs []*e1Scenario, j e1Job) *e1JobResult {
 			break
 		}
 		h := sc.harness()
-		// determinism: the default schedule twice
-		x1, o1, _ := vrt.Replay(h, nil)
-		x2, o2, _ := vrt.Replay(h, nil)
-		if s1, s2 := e1Sig(x1, o1), e1Sig(x2, o2); s1 != s2 {
-			out.Err = fmt.Sprintf("non-deterministic replay in %s:\n%s\nvs\n%s", sc.name, s1, s2)
+		// determinism of the schedule tree: the default schedule twice must meet the
+		// same points (the answers may differ under a change that makes Locations
+		// depend on map iteration order; that is the oracle's business, not an error)
+		x1, _, _ := vrt.Replay(h, nil)
+		x2, _, _ := vrt.Replay(h, nil)
+		if s1, s2 := e1Sig(x1, ""), e1Sig(x2, ""); s1 != s2 && x1.Panic == "" && x2.Panic == "" {
+			out.Err = fmt.Sprintf("non-deterministic schedule points in %s:\n%s\nvs\n%s", sc.name, s1, s2)
 			return out
 		}
 		res := vrt.Explore(h, sc.Bound, left)
